@@ -237,6 +237,60 @@ def _fragment_reuse(s1: int, s2: int, p1: int, p2: int, sibling_first: bool, swa
     return result(ok, reached)
 
 
+# ---- custom scalars accept whatever their parser accepts - and everything else is a reported error, never a crash
+CS_LITERALS = ("1", "1.5", "\"s\"", "true", "null", "RED", "[1, 2]", "[]", "{a: 1}", "{}", "{a: {b: [RED, {c: null}]}}", "$v", "[$v]", "{a: $v}", "{a: 1, a: 2}", "[[\"x\"], {y: $nope}]")
+CS_POSITIONS = ("{ f(j: %L) }", "query ($v: JSON) { f(j: %L) }", "query ($v: JSON = %L) { f(j: $v) }", "{ g(i: {j: %L}) }", "query ($v: JSON) { g(i: {j: %L, js: [%L]}) }", "{ f(j: 1) @d(j: %L) }",
+                "query ($v: JSON) { l(js: [%L, 1]) }")
+_CS_SCHEMAS = {}
+
+
+def cs_schema(kind):
+    if kind not in _CS_SCHEMAS:
+        from py_gql import build_schema
+        from py_gql.schema import ScalarType
+        sdl = "%s input I { j: JSON js: [JSON] } type Query { f(j: JSON): Int g(i: I): Int l(js: [JSON]): Int } directive @d(j: JSON) on FIELD"
+        if kind == 0:
+            _CS_SCHEMAS[kind] = build_schema(sdl % "scalar JSON")                      # the default scalar an SDL declaration gives
+        elif kind == 1:
+            _CS_SCHEMAS[kind] = build_schema(sdl % "", additional_types=[ScalarType("JSON", serialize=lambda v: v, parse=lambda v: v)])     # parse only, no parse_literal
+        else:
+            def strict(v):
+                if not isinstance(v, str):
+                    raise ValueError("JSON text expected")
+                return v
+            _CS_SCHEMAS[kind] = build_schema(sdl % "", additional_types=[ScalarType("JSON", serialize=str, parse=strict)])                 # a parser that rejects with ValueError
+    return _CS_SCHEMAS[kind]
+
+
+def _custom_scalar_literals(lit: int, pos: int, kind: int, given: int) -> bool:
+    """
+    pre: 0 <= lit < len(CS_LITERALS) and 0 <= pos < len(CS_POSITIONS) and 0 <= kind <= 2 and 0 <= given <= 2
+    pre: shard_of(lit)
+    post: _
+    """
+    L, P, K, GV = pick(lit, CS_LITERALS), pick(pos, CS_POSITIONS), concrete_int(kind, 0, 2), concrete_int(given, 0, 2)
+    with untraced():
+        text = P.replace("%L", L)
+        schema = cs_schema(K)
+        try:
+            doc = parse(text)
+        except GraphQLSyntaxError:
+            return result(True, False)
+        errors = validate_ast(schema, doc).errors           # any exception propagates = violation
+        if not isinstance(errors, list):
+            return result(False, True)
+        if errors:
+            return result(True, True)
+        variables = ({}, {"v": "text"}, {"v": {"k": [1, None]}})[GV]
+        res = graphql_blocking(schema, text, variables=variables, root={"f": 1, "g": 2, "l": 3})      # validated: must not raise
+        ok = isinstance(res.response(), dict)
+        from py_gql import process_graphql_query
+        from py_gql.execution import Executor
+        res2 = process_graphql_query(schema, text, variables=variables, root={"f": 1, "g": 2, "l": 3}, executor_cls=Executor)
+        ok = ok and json.dumps(res.response(), default=repr) == json.dumps(res2.response(), default=repr)
+    return result(ok, True)
+
+
 # ---- variables used through a fragment that several operations share (each operation declares its own types)
 STYPES = ("Boolean!", "Boolean", "Boolean = true", "Int", None)          # declaration of $s (None = not declared)
 XTYPES = ("Int", "Int!", "Int = 2", "String", "[Int]", None)             # declaration of $x
@@ -417,6 +471,12 @@ def _nested_conflicts(d1: int, d2: int, style: int, reverse: bool, parent: int, 
 
 
 CONDITIONS = [
+    Cond(
+        name="custom_scalar_literals", fn=_custom_scalar_literals, quick=90, thorough=200, per_path=60, shards_quick=16, shards_thorough=16,
+        bound="%d literals of every kind (scalars, null, enum, lists, objects, nested, with variables, duplicate keys) at %d positions of a CUSTOM scalar (argument, variable default, input field, list item, directive argument) x 3 scalars "
+              "(SDL-declared default, parse only, a parser rejecting with ValueError) x 3 variable assignments: validate_ast returns a list and never raises; when it is silent both executors answer without raising, identically" % (len(CS_LITERALS), len(CS_POSITIONS)),
+        symbolic={"lit,pos,kind,given": "choice"}, witness={"lit": 0, "pos": 0, "kind": 0, "given": 0},
+    ),
     Cond(
         name="fragment_reuse", fn=_fragment_reuse, quick=150, thorough=200, per_path=60, shards_quick=16, shards_thorough=16,
         bound="one named fragment selecting `best { s1 }` spread at TWO places of one operation (%d places: object, list items, nested object, nested list, abstract field) while only one place also selects a same-key sibling `best { s2 }` "
